@@ -21,6 +21,7 @@ type OblResult struct {
 	Status    string            `json:"status"` // discharged, failed, undischarged, trivial, cover-ok, cover-vacuous, cover-unknown
 	Solver    string            `json:"solver,omitempty"`
 	Time      float64           `json:"solver_time_s"`
+	MaxQuery  float64           `json:"max_query_s"` // slowest single path query (stability indicator)
 	Paths     int               `json:"paths"`
 	Model     map[string]string `json:"model,omitempty"`
 	FailPath  int               `json:"failed_path,omitempty"`
@@ -312,6 +313,9 @@ func (e *Engine) SolveUnit(unitName string, uses []string) []*OblResult {
 		}
 		for _, j := range js {
 			r.Time += j.res.Time
+			if j.res.Time > r.MaxQuery {
+				r.MaxQuery = j.res.Time
+			}
 			solvers[j.res.Solver] = true
 			if j.res.Status == "unsat" {
 				continue
